@@ -116,12 +116,15 @@ type shard struct {
 	hc                 *http.Client
 }
 
-func newShard(t evid.TB, id int) *shard {
+func newShard(t evid.TB, id int) *shard { return newShardPaths(t, id, liveSuffixes, freshSuffixes) }
+
+// newShardPaths: a shard with its own sets of live and fresh path suffixes.
+func newShardPaths(t evid.TB, id int, live, fresh []string) *shard {
 	sh := &shard{s: server(), id: id, ns: fmt.Sprintf("/t%d", id), streams: map[string]*media.Stream{}, n: map[string]uint32{}}
-	for _, x := range liveSuffixes {
+	for _, x := range live {
 		sh.live = append(sh.live, sh.ns+x)
 	}
-	for _, x := range freshSuffixes {
+	for _, x := range fresh {
 		sh.fresh = append(sh.fresh, sh.ns+x)
 	}
 	sh.rootName, sh.rootPass = fmt.Sprintf("t%droot", id), fmt.Sprintf("root-secret-%d", id)
@@ -164,7 +167,7 @@ func (sh *shard) pattern(rel string) string {
 // that a copy survives inside one 184-byte TS packet payload).
 func marker(path string) string { return "<<VERIF:" + path + ">>" }
 
-var markerRE = regexp.MustCompile(`<<VERIF:([a-z0-9/]+)>>`)
+var markerRE = regexp.MustCompile(`<<VERIF:([a-z0-9/_]+)>>`)
 
 // markersIn lists the distinct stream paths whose marker occurs in b.
 func markersIn(b []byte) []string {
